@@ -28,7 +28,7 @@ def main():
         subprocess.run(["cargo", "+nightly", "build", "--offline", "--release", "--target-dir", TGT], cwd=os.path.join(C.VERIF, "harness"), env=env,
                        stdout=subprocess.DEVNULL, stderr=subprocess.DEVNULL, check=True)
         H.binary = BIN
-        os.environ["LLVM_PROFILE_FILE"] = os.path.join(PROF, p + "-%p-%m.profraw")
+        C.ENV["LLVM_PROFILE_FILE"] = os.path.join(PROF, p + "-%p-%m.profraw")
         try:
             mod.run(ctx, H)
         except SystemExit:
@@ -40,10 +40,11 @@ def main():
     print(rep)
     for f in ("src/impls.rs", "src/serde_json.rs", "src/value.rs", "src/errors/json.rs", "src/errors/query_params.rs", "src/errors/helpers.rs", "src/lib.rs", "src/serde_cs.rs"):
         out = subprocess.run([os.path.join(TOOLS, "llvm-cov"), "show", BIN, "-instr-profile=" + os.path.join(PROF, "all.profdata"), os.path.join(C.REPO, f),
-                              "--show-line-counts-or-regions"], stdout=subprocess.PIPE, text=True).stdout
-        unc = [l for l in out.split("\n") if "|      0|" in l]
+                              "--show-instantiations=false"], stdout=subprocess.PIPE, text=True).stdout
+        import re
+        unc = [l for l in out.split("\n") if re.match(r"^ +[0-9]+\| +0\|", l)]
         print("== %s: %d uncovered lines" % (f, len(unc)))
-        for l in unc[:40]:
+        for l in unc[:25]:
             print("   ", l[:160])
 
 
